@@ -287,7 +287,53 @@ class SymExec:
             return out
         if k == "Null":
             return leaves
-        if k in ("For", "While", "Do", "ForRange", "Switch", "Goto", "Break", "Continue", "Try", "OMP"):
+        if k == "Switch":
+            # a switch without fall-through is an if-chain on the value of its selector; inlinable calls in the selector
+            # (a classifier helper returning an enum) are evaluated first, forking on the callee's branches
+            from .tables import switch_arms
+            sw, arms, default = switch_arms(fn, s)
+            out = list(done)
+            live = self._fork_nested(live, s["c"], fn)
+
+            def run_arm(leaf_list, arm):
+                res = leaf_list
+                for st in arm["stmts"]:
+                    if st.get("k") == "Block" and not st.get("mac") and st.get("s") and st["s"][-1].get("k") == "Break":
+                        st = dict(st)
+                        st["s"] = st["s"][:-1]
+                    res = self._block(res, st, fn)
+                return res
+            for l in live:
+                self._cur = l
+                v = self._conv(s["c"], l.env, fn)
+                if getattr(v, "is_Integer", False):
+                    arm = arms.get(int(v), default)
+                    out += run_arm([l], arm) if arm is not None else [l]
+                    continue
+                distinct = []
+                for lab, arm in sorted(arms.items()):
+                    for d_ in distinct:
+                        if d_[1] is arm:
+                            d_[0].append(lab)
+                            break
+                    else:
+                        distinct.append(([lab], arm))
+                negs = []
+                for labs, arm in distinct:
+                    c = sp.Or(*[sp.Eq(v, lab) for lab in labs]) if len(labs) > 1 else sp.Eq(v, labs[0])
+                    la = Leaf(l.conds + negs + [(c, True, s["c"])], l.env.copy())
+                    la.callvals = dict(getattr(l, "callvals", {}))
+                    la.opaque = list(getattr(l, "opaque", []))
+                    out += run_arm([la], arm)
+                    negs = negs + [(c, False, s["c"])]
+                ld = Leaf(l.conds + negs, l.env.copy())
+                ld.callvals = dict(getattr(l, "callvals", {}))
+                ld.opaque = list(getattr(l, "opaque", []))
+                out += run_arm([ld], default) if default is not None else [ld]
+                if len(out) > self.max_leaves:
+                    raise AnalysisBroken("decision tree of %s too large" % fn["full"])
+            return out
+        if k in ("For", "While", "Do", "ForRange", "Goto", "Break", "Continue", "Try", "OMP"):
             raise AnalysisBroken("%s: %s statement at line %s: not a loop-free formula"
                                  % (fn["full"], k, s.get("l")))
         # expression statement
